@@ -3,10 +3,11 @@ Driver for the `_split_disjoint_nodes` / `_relabel_mutations_node` models:
 `lake env lean --run Driver/Split.lean < cases`.
 Block format (coordinates are exact rationals `num/den`):
   case <id> / n <N> / excl <0|1>... / edges l r p c l r p c ... / ins e... / rem e... /
-  muts pos node pos node ... / end
+  muts pos node pos node ... / flags f... (optional: nodes_flags, naturals) / end
 `ins`/`rem` are tskit's edge insertion / removal orders (edge ids).
-Reply: `<id>;<edges_parent>;<edges_child>;<nodes_order>;<split_nodes>;<mutations_node>` (each a
-space separated list of naturals) or `<id> bad-op`.
+Reply: `<id>;<edges_parent>;<edges_child>;<nodes_order>;<split_nodes>;<mutations_node>;<flags>` (each a
+space separated list of naturals; `<flags>` = the output flags column for NODE_SPLIT_BY_PREPROCESS = 2^30,
+empty when no `flags` line was sent) or `<id> bad-op`.
 -/
 import TsdateVerif.Model.Split
 import TsdateVerif.Model.Proto
@@ -54,8 +55,14 @@ def runCase (blk : List (List String)) : Option String := do
     { pos := (aget esA e).left, child := out.child.getD e 0, parent := out.parent.getD e 0 })
   let remPos : List Rat := rem.map (fun e => (aget esA e).right)
   let m ← relabelMutations (0 : Rat) out.order.toArray insEv remPos muts
+  let flags ← match field blk "flags" with
+    | none => some []
+    | some ws => do
+      let fl ← mapAll String.toNat? ws
+      if fl.length ≠ N then none
+      pure (outFlags (2 ^ 30) fl.toArray out)
   pure (id ++ ";" ++ showNats out.parent ++ ";" ++ showNats out.child ++ ";" ++ showNats out.order
-    ++ ";" ++ showNats out.split ++ ";" ++ showNats m)
+    ++ ";" ++ showNats out.split ++ ";" ++ showNats m ++ ";" ++ showNats flags)
 
 partial def loop (h : IO.FS.Stream) : IO Unit := do
   match ← readBlock h with
